@@ -145,6 +145,22 @@ def focus(ctx, P):
         ctx.check(P + ':focus:nesting-depth-bounded', 'R-dom', 'a compression / encryption layer is opened only after the nesting depth of the reader was compared with a constant bound (reading recurses through all layers)',
                   ok and any('from_compressed' in u for u in users) and any('from_edata' in u for u in users), function=b.path, guards=[site(b, g) for g in gs], users=users,
                   witness=fmt_path(b, wit) if wit else None)
+        # ... and that depth is a count of LAYERS: the function that counts steps from a container to the reader directly inside it.
+        # A step function that itself descends again (`r.get_mut().get_mut().get_mut()` ending in the stepper's own recursion) skips a
+        # layer whenever the inner reader is a container too, so a chain of encrypted containers never reaches the bound.
+        for dp, dr in sorted(ctx.f.bodies.items()):
+            if not re.search(r'MessageReader.*::\w*depth\w*$', dp) or '::tests::' in dp:
+                continue
+            db = ctx.wrap(dr)
+            steppers = sorted(set((t['f'].get('res') or t['f'].get('fn')) for i, t in db.calls() if re.search(r'MessageReader.*::get_mut$', (t['f'].get('res') or t['f'].get('fn') or ''))))
+            multi = []
+            for sp in steppers:
+                sb = ctx.body(sp)
+                if sb is not None and any((t['f'].get('res') or t['f'].get('fn')) == sp for i, t in sb.calls()):
+                    multi.append(sp)
+            ctx.check(P + ':focus:nesting-depth-counts-every-layer', 'R-table', 'the nesting depth counter advances one container layer per count (its step function does not descend again by itself)',
+                      not multi, function=dp, table=steppers,
+                      missing=None if not multi else '%s calls itself on the inner reader: for Edata(Edata(..)) one count covers two layers and a chain of encrypted containers is never refused' % multi[0])
     # a public Result-returning function does not `expect` / `unwrap` one of its own Option parameters: None is the caller's input
     n = 0
     for p, r in sorted(ctx.f.bodies.items()):
